@@ -172,7 +172,13 @@ def match_group(I, m, name):
     if name == 0 or name is None:
         if m.full:
             return m.string
-        return lib.slice_(I, m.string, lib.SliceVal(m.start, m.end, None))
+        g = lib.slice_(I, m.string, lib.SliceVal(m.start, m.end, None))
+        if isinstance(g, Sym):
+            key = ('grp', g.t.get_id())
+            if key not in I.p.ghost:
+                I.p.ghost[key] = g.t
+                I.p.assume(z3.Length(g.t) == I.term(m.end) - I.term(m.start))      # R1: 0 <= start <= end <= len(string)
+        return g
     if name in m.groups:
         return m.groups[name]
     if m.declared_only:
